@@ -5,7 +5,9 @@ S=/verif/seeded/$1; P=$2; shift 2
 cd /verif
 if ! git -C /repo diff --quiet; then echo "/repo has uncommitted changes; refusing"; exit 2; fi
 git -C /repo apply $S/patch.diff || { echo "patch does not apply"; exit 2; }
-trap 'git -C /repo checkout -- . ; echo "[/repo restored]"' EXIT
+# evidence written while a seed is applied must never replace the evidence of the unchanged tree
+EV=/verif/evidence/$P.json; BK=$(mktemp); [ -f $EV ] && cp $EV $BK
+trap 'git -C /repo checkout -- . ; [ -s $BK ] && cp $BK $EV; rm -f $BK; echo "[/repo restored]"' EXIT
 mkdir -p $S/runs
 ./check $P "$@" > $S/runs/$P.log 2>&1; rc=$?
 tail -25 $S/runs/$P.log | cut -c1-300
